@@ -193,6 +193,7 @@ EntryItems(e, kl, hexm) ==
 SkoolItems(S, kl, hexm) ==
   UNION {EntryItems(S.ents[x], kl, hexm) : x \in 1..Len(S.ents)}
   \cup (IF S.ents = <<>> THEN {} ELSE NonEntryItems("ftr", S.ents[Len(S.ents)].ins[1].a, S.post))
+DocOfSkool(S, kl, hexm) == SkoolItems(S, kl, hexm)
 SkoolStmts(S) == UNION {{S.ents[x].ins[j] : j \in {y \in 1..Len(S.ents[x].ins) : S.ents[x].ins[y].k # ""}} : x \in 1..Len(S.ents)}
 
 \* =============================================================================================
@@ -292,6 +293,8 @@ CtlItems(C, stmts, kl, hexm, end) ==
      \cup UNION {CommentItem(C[j], C[j].a + C[j].len, stmts, kl) : j \in {x \in 1..N : IsSubDir(C[x]) /\ C[x].a \notin ms}}
      \cup UNION {CommentItem(C[j], MEnd(C, C[j], end), stmts, kl) : j \in {x \in 1..N : C[x].d = "M"}}
 
+DocOfCtl(C, stmts, kl, hexm, end) == CtlItems(C, stmts, kl, hexm, end)
+
 \* =============================================================================================
 \* the verdict
 \* =============================================================================================
@@ -316,9 +319,9 @@ Judge(c) ==
   ELSE
   LET kl == c.kl = 1
       hexm == c.hexm = 1
-      IA == SkoolItems(c.A, kl, hexm)
-      IC == CtlItems(c.C, SkoolStmts(c.A), kl, hexm, c.end)
-      IB == SkoolItems(c.B, kl, hexm)
+      IA == DocOfSkool(c.A, kl, hexm)
+      IC == DocOfCtl(c.C, SkoolStmts(c.A), kl, hexm, c.end)
+      IB == DocOfSkool(c.B, kl, hexm)
       spans == {x \in IA : x.k = "icmt"}
   IN IF IA \ IC # {} THEN "ctl1-lost " \o Describe(First(IA \ IC), IC, spans)
      ELSE IF IC \ IA # {} THEN "ctl1-added " \o Describe(First(IC \ IA), IA, spans)
@@ -331,7 +334,7 @@ Judge(c) ==
 
 \* drift of the ctl0 -> A leg: items of the generated document that A does not show
 Drift(c) == IF c.err # "" \/ c.A.bad > 0 THEN {}
-            ELSE LET IA == SkoolItems(c.A, FALSE, c.hexm = 1)
+            ELSE LET IA == DocOfSkool(c.A, FALSE, c.hexm = 1)
                      D == {Item(c.D[j].k, c.D[j].a, c.D[j].i, c.D[j].p) : j \in 1..Len(c.D)}
                  IN D \ IA
 
